@@ -323,12 +323,14 @@ func parseArithmeticExpression
   loop 1 decreases len(remaining)
 
 func parseComparisonExpression
-  props C06
+  props C06 C13 C05
   option safety
   recgroup exprparse
   decreases 16 * len(tokens) + 6
   before parseArithmeticExpression arithmetic-binds-tighter-than-comparison: true
   ensures success-gives-a-node-and-consumes-input: result2 == nil ==> result0 != nil && len(result1) < len(tokens)
+  atreturn is-not-in-any-letter-case-is-the-two-word-operator: result2 == nil && len(remaining) >= 2 && strings.ToUpper(remaining[0]) == "IS" && strings.ToUpper(remaining[1]) == "NOT" ==> result0.Type == TypeOperator && result0.Value == "IS NOT" && result0.Left == left
+  atreturn a-comparison-operator-makes-an-operator-node-over-the-two-sides: result2 == nil && !(len(remaining) >= 2 && strings.ToUpper(remaining[0]) == "IS" && strings.ToUpper(remaining[1]) == "NOT") && len(remaining) > 0 && isComparisonOperator(remaining[0]) ==> result0.Type == TypeOperator && result0.Value == remaining[0] && result0.Left == left
 
 func parseAndExpression
   props C06
@@ -382,13 +384,15 @@ func valueEnding
   props C06
   option safety
   option pure
+  ensures a-digit-a-letter-a-closing-bracket-a-backtick-or-a-dot-ends-a-value-nothing-else-does: result <==> ((ch >= 48 && ch <= 57) || (ch >= 97 && ch <= 122) || (ch >= 65 && ch <= 90) || ch == 41 || ch == 93 || ch == 96 || ch == 46)
 
 func precededByValue
   props C06
   option safety
   requires 0 <= i && i <= len(expr)
-  loop 1 invariant -1 <= j && j < i
+  loop 1 invariant -1 <= j && j < i && forall(k, j + 1, i, expr[k] == 32 || expr[k] == 9 || expr[k] == 10 || expr[k] == 13)
   loop 1 decreases j + 1
+  ensures a-minus-is-a-subtraction-exactly-when-the-nearest-character-before-it-that-is-no-blank-ends-a-value: result <==> exists(j, 0, i, valueEnding(expr[j]) && forall(k, j + 1, i, expr[k] == 32 || expr[k] == 9 || expr[k] == 10 || expr[k] == 13))
 
 func tokenize
   props C06
